@@ -237,7 +237,7 @@ class C25(core.Check):
     PROPS = 'props/C25.v'
     MODEL_IMPORTS = ['gen.Gen_locks', 'model.Locks', 'model.RandomFile', 'model.SharedFile', 'model.FieldVars']
     QUICK_CASES = 300
-    THOROUGH_CASES = 2000
+    THOROUGH_CASES = 3000
     TRUSTED = ['hand model model/RandomFile.v: the host stream (seek/read/write/tell of a Python binary file object '
                'with zero fill past the end) is a MODEL of io, not verified; RandomFile.get/put/_set_record_pos/'
                'eof/lof/loc control flow, FieldFile.set_buffer, LSET/RSET into the FIELD buffer and the statement '
@@ -363,8 +363,8 @@ class C25(core.Check):
                 if pos is not None and 64 < single(pos) <= 2 ** 25:
                     k = 'get'
                     far.add(n)
-                elif pos is not None:
-                    far.discard(n)
+                elif pos is not None and 1 <= single(pos) <= 64:
+                    far.discard(n)      # (a rejected record number leaves the record pointer where it was)
                 elif n in far:
                     k = 'get'
                 ops.append([k, n, pos])
